@@ -16,7 +16,8 @@ EXTENDS Locks, TLAPS
 
 ASSUME SeparateProcesses ==
     /\ \A h1, h2 \in Handles : ProcOf[h1] = ProcOf[h2] => h1 = h2
-    /\ \A h \in Handles : ProcOf[h] \notin Writers
+    /\ \A h \in Handles : ProcOf[h] \notin Writers /\ ProcOf[h] \notin Foreign
+    /\ Writers \cap Foreign = {}
 
 LockT == {"N", "R", "W"}
 HPC == {"closed", "opening", "idle", "rl_pending", "rl_got", "rl_failed", "locked", "callback"}
@@ -79,7 +80,8 @@ LEMMA ProcFacts ==
     /\ \A w \in Writers : w \in Procs
     /\ \A h \in Handles, w \in Writers : ProcOf[h] # w
     /\ \A h1, h2 \in Handles : h1 # h2 => ProcOf[h1] # ProcOf[h2]
-    /\ \A p \in Procs : (\E h \in Handles : p = ProcOf[h]) \/ p \in Writers
+    /\ \A p \in Procs : (\E h \in Handles : p = ProcOf[h]) \/ p \in Writers \/ p \in Foreign
+    /\ \A f \in Foreign : f \in Procs /\ f \notin Writers /\ \A h \in Handles : ProcOf[h] # f
 BY SeparateProcesses DEF Procs
 
 LEMMA RegionFacts == Regions = {"pend", "resv", "shrd"} /\ "pend" \in Regions /\ "resv" \in Regions /\ "shrd" \in Regions
@@ -256,9 +258,23 @@ THEOREM StepOK == IndInv /\ [Next]_vars => IndInv'
   <2>4. Compat' BY <1>20 DEF WUnlock, IndInv, TypeOK, HandleInv, WriterInv, Compat, WritingInv, LockT, HPC, WST, WPC, CanLock, SetLock, DropAll, NoLocks
   <2>5. WritingInv' BY <1>20 DEF WUnlock, IndInv, TypeOK, HandleInv, WriterInv, Compat, WritingInv, LockT, HPC, WST, WPC, CanLock, SetLock, DropAll, NoLocks
   <2> QED BY <2>1, <2>2, <2>3, <2>4, <2>5 DEF IndInv
+<1>22. ASSUME NEW f \in Foreign, NEW r \in {"pend", "shrd"}, FLock(f, r) PROVE IndInv'
+  <2>1. TypeOK' BY <1>22 DEF FLock, IndInv, TypeOK, HandleInv, WriterInv, Compat, WritingInv, LockT, HPC, WST, WPC, CanLock, SetLock, DropAll, NoLocks
+  <2>2. (\A x \in Handles : HandleInv(x))' BY <1>22 DEF FLock, IndInv, TypeOK, HandleInv, WriterInv, Compat, WritingInv, LockT, HPC, WST, WPC, CanLock, SetLock, DropAll, NoLocks
+  <2>3. (\A x \in Writers : WriterInv(x))' BY <1>22 DEF FLock, IndInv, TypeOK, HandleInv, WriterInv, Compat, WritingInv, LockT, HPC, WST, WPC, CanLock, SetLock, DropAll, NoLocks
+  <2>4. Compat' BY <1>22 DEF FLock, IndInv, TypeOK, HandleInv, WriterInv, Compat, WritingInv, LockT, HPC, WST, WPC, CanLock, SetLock, DropAll, NoLocks
+  <2>5. WritingInv' BY <1>22 DEF FLock, IndInv, TypeOK, HandleInv, WriterInv, Compat, WritingInv, LockT, HPC, WST, WPC, CanLock, SetLock, DropAll, NoLocks
+  <2> QED BY <2>1, <2>2, <2>3, <2>4, <2>5 DEF IndInv
+<1>23. ASSUME NEW f \in Foreign, NEW r \in {"pend", "shrd"}, FUnlock(f, r) PROVE IndInv'
+  <2>1. TypeOK' BY <1>23 DEF FUnlock, IndInv, TypeOK, HandleInv, WriterInv, Compat, WritingInv, LockT, HPC, WST, WPC, CanLock, SetLock, DropAll, NoLocks
+  <2>2. (\A x \in Handles : HandleInv(x))' BY <1>23 DEF FUnlock, IndInv, TypeOK, HandleInv, WriterInv, Compat, WritingInv, LockT, HPC, WST, WPC, CanLock, SetLock, DropAll, NoLocks
+  <2>3. (\A x \in Writers : WriterInv(x))' BY <1>23 DEF FUnlock, IndInv, TypeOK, HandleInv, WriterInv, Compat, WritingInv, LockT, HPC, WST, WPC, CanLock, SetLock, DropAll, NoLocks
+  <2>4. Compat' BY <1>23 DEF FUnlock, IndInv, TypeOK, HandleInv, WriterInv, Compat, WritingInv, LockT, HPC, WST, WPC, CanLock, SetLock, DropAll, NoLocks
+  <2>5. WritingInv' BY <1>23 DEF FUnlock, IndInv, TypeOK, HandleInv, WriterInv, Compat, WritingInv, LockT, HPC, WST, WPC, CanLock, SetLock, DropAll, NoLocks
+  <2> QED BY <2>1, <2>2, <2>3, <2>4, <2>5 DEF IndInv
 <1>21. CASE UNCHANGED vars
   BY <1>21 DEF vars, IndInv, TypeOK, HandleInv, WriterInv, Compat, WritingInv, LockT, HPC, WST, WPC, CanLock, SetLock, DropAll, NoLocks
-<1> QED BY <1>1, <1>2, <1>3, <1>4, <1>5, <1>6, <1>7, <1>8, <1>9, <1>10, <1>11, <1>12, <1>13, <1>14, <1>15, <1>16, <1>17, <1>18, <1>19, <1>20, <1>21 DEF Next
+<1> QED BY <1>1, <1>2, <1>3, <1>4, <1>5, <1>6, <1>7, <1>8, <1>9, <1>10, <1>11, <1>12, <1>13, <1>14, <1>15, <1>16, <1>17, <1>18, <1>19, <1>20, <1>21, <1>22, <1>23 DEF Next
 
 THEOREM Spec => []Safety
 <1>1. Spec => []IndInv BY InitOK, StepOK, PTL DEF Spec
